@@ -407,21 +407,33 @@ void h_iterate(void) {
   Iterator it, e;
   KDTree_begin(&tree, &it);
   KDTree_end(&tree, &e);
-  int steps = 0, hits = 0;
+  int steps = 0, hits = 0, post_ok = 1;
   for (int s = 0; s < N + 1; s++) {
     if (!Iterator_ne(&it, &e)) {
       break;
     }
-    const Pair* cur = Iterator_deref(&it);
-    if (pt_is(&cur->first, qc) && cur->second == in_qv) {
+    /* even steps: *it and ++it, odd steps: it-> and it++ (whose result must still designate the entry just visited) */
+    const Pair* cur = (s & 1) ? Iterator_arrow(&it) : Iterator_deref(&it);
+    Pair visited = *cur;
+    if (pt_is(&visited.first, qc) && visited.second == in_qv) {
       hits++;
     }
-    Iterator_preinc(&it);
+    if (s & 1) {
+      Iterator old = Iterator_postinc(&it);
+      const Pair* oc = Iterator_deref(&old);
+      for (int d = 0; d < DIMS; d++) {
+        post_ok = post_ok && (PT_GET(oc->first, d) == PT_GET(visited.first, d));
+      }
+      post_ok = post_ok && (oc->second == visited.second) && Iterator_ne(&old, &it);
+    } else {
+      Iterator_preinc(&it);
+    }
     steps++;
   }
-  __CPROVER_assert(!Iterator_ne(&it, &e), "iteration ends after at most size() steps");
+  __CPROVER_assert(!Iterator_ne(&it, &e) && Iterator_eq(&it, &e), "iteration ends after at most size() steps");
   __CPROVER_assert(steps == N, "iteration makes exactly size() steps");
   __CPROVER_assert(hits == list_count(qc, in_qv), "iteration yields every entry exactly as often as it is stored (symbolic probe entry)");
+  __CPROVER_assert(post_ok, "it++ returns an iterator that still designates the entry just visited");
   VERIF_REACH();
 }
 
